@@ -585,7 +585,23 @@ func (w *Worker) runPath(entry *ssa.Function, plan []Decision, synced int, hasPr
 			res.Status, res.Msg, res.Pos = pe.status, pe.msg, pe.pos
 			switch pe.status {
 			case "PANIC", "OOB":
-				if !(pe.status == "PANIC" && st.allowPanic) {
+				if st.crashID != "" && st.crashCond != nil && st.crashCond.IsTrue() {
+					// the crash belongs to a recorded finding class
+					if !st.replaying() || st.w.Opt.IsConcrete {
+						f := AssertFail{ID: st.crashID, Kind: "KNOWN", Msg: pe.msg, Pos: pe.pos}
+						if !st.w.Opt.IsConcrete && !st.w.covered[st.crashID] {
+							if r, m := st.model(); r == smt.Sat {
+								f.Model = m
+								f.Vector, f.Names = st.vector(m)
+								st.w.covered[st.crashID] = true
+								st.fails = append(st.fails, f)
+							}
+						} else if st.w.Opt.IsConcrete {
+							st.fails = append(st.fails, f)
+						}
+						res.Fails = st.fails
+					}
+				} else if !(pe.status == "PANIC" && st.allowPanic) {
 					st.recordFail("no-"+strings.ToLower(pe.status), pe.status, pe.msg)
 					res.Fails = st.fails
 				}
